@@ -181,6 +181,9 @@ func ParseSPSNALUnit(data []byte, parseVUIBeyondAspectRatio bool) (*SPS, error) 
 		sps.OffsetForNonRefPic = reader.ReadExpGolomb()
 		sps.OffsetForTopToBottomField = reader.ReadExpGolomb()
 		numRefFramesInPicOrderCntCycle := reader.ReadExpGolomb()
+		if numRefFramesInPicOrderCntCycle > 255 { // Range 0 to 255 according to 7.4.2.1.1
+			return nil, fmt.Errorf("num_ref_frames_in_pic_order_cnt_cycle %d too big", numRefFramesInPicOrderCntCycle)
+		}
 		sps.RefFramesInPicOrderCntCycle = make([]uint, numRefFramesInPicOrderCntCycle)
 		for i := 0; i < int(numRefFramesInPicOrderCntCycle); i++ {
 			sps.RefFramesInPicOrderCntCycle[i] = reader.ReadExpGolomb()
@@ -348,6 +351,10 @@ func parseVUI(reader *bits.EBSPReader, parseVUIBeyondAspectRatio bool) *VUIParam
 func parseHrdParameters(r *bits.EBSPReader) *HrdParameters {
 	hp := &HrdParameters{}
 	hp.CpbCountMinus1 = r.ReadExpGolomb()
+	if hp.CpbCountMinus1 > 31 { // Range 0 to 31 according to E.2.2
+		r.SetError(fmt.Errorf("cpb_cnt_minus1 %d too big", hp.CpbCountMinus1))
+		return hp
+	}
 
 	hp.BitRateScale = r.Read(4)
 	hp.CpbSizeScale = r.Read(4)
